@@ -292,6 +292,13 @@ func optionBinds(d *Decls, b map[string][]string) map[string][]string {
 
 // CheckC12 runs the argv with no env-backed option and with each listed subset env-backed.
 func CheckC12(c *MetaCase, st *Stats) *Violation {
+	if HasHelpToken(c.A) || HasFoldEq(c.D, c.A) || HasDashResidue(c.D, c.A) {
+		// token shapes outside every claim (DESIGN.md 3.4 a, b, e): "-ab=v" and "-f-..." stop an option scan until token
+		// surgery by another matcher turns them into something else, so even monotonicity is not promised for them
+		st.Eval()
+		st.Class("unclaimed:token-shape")
+		return nil
+	}
 	base := withEnv(c.D, nil)
 	Begin("C12", "envmono", c)
 	r0 := RunReal(base, c.SpecStr, c.A)
@@ -432,9 +439,9 @@ func CheckC09Transparency(c *MetaCase, st *Stats) *Violation {
 			return nil
 		}
 	}
-	if HasDashResidue(c.D, c.A) {
+	if HasDashResidue(c.D, c.A) || HasFoldEq(c.D, c.A) || HasHelpToken(c.A) {
 		st.Eval()
-		st.Class("skipped:dash-residue")
+		st.Class("skipped:unclaimed-token-shape")
 		return nil
 	}
 	Begin("C09", "transparency", c)
@@ -595,6 +602,9 @@ func CheckC09Tail(c *MetaCase, st *Stats) *Violation {
 				c.SpecStr, argvSpecDD, describe(&r1), c.SpecB, argvCmdDD, describe(&r2), FmtDecls(c.D))
 		}
 		st.Class("tail:spec-dd-equals-cmdline-dd")
+	}
+	if len(c.AST.Kids) == 3 && c.AST.Kids[1].Kind == KOptional {
+		st.Class("tail:spec-dd-is-optional")
 	}
 	dashy := false
 	for _, t := range data {
